@@ -264,7 +264,7 @@ func (s *session) connect() error {
 		return fmt.Errorf("unexpected peer ASN %d, want %d", op.asn, s.PeerASN)
 	}
 	s.peerFBASNSupport = op.fbasn
-	if s.MyASN > 65536 && !s.peerFBASNSupport {
+	if s.MyASN > 65535 && !s.peerFBASNSupport {
 		conn.Close()
 		return fmt.Errorf("peer does not support 4-byte ASNs")
 	}
